@@ -1450,25 +1450,53 @@ where
                 // Part of the directory does not exist (yet). Resolve symbolic links
                 // in the part that does, like realpath(3) on most platforms, so that
                 // the name does not change once the rest has been created.
-                let mut resolved = None;
-                for prefix in dname.ancestors().skip(1) {
-                    match prefix.canonicalize() {
-                        Ok(mut real) => {
-                            real.push(dname.strip_prefix(prefix).unwrap());
-                            resolved = Some(real);
-                            break;
-                        }
-                        Err(e) if e.kind() == io::ErrorKind::NotFound => continue,
-                        Err(e) => return Err(e),
-                    }
-                }
-                helpers::normpath(resolved.as_deref().unwrap_or(&dname)).into_owned()
+                let resolved = resolve_existing_part(&dname, MAX_DANGLING_LINKS)?;
+                helpers::normpath(&resolved).into_owned()
             }
             Err(e) => return Err(e),
         };
         buf.push(fname);
         Ok(Cow::Owned(buf))
     }
+}
+
+/// How many dangling symbolic links `resolve_existing_part` follows before giving up.
+const MAX_DANGLING_LINKS: u32 = 40;
+
+/// Resolve symbolic links in the absolute directory name `dname`, part of which
+/// does not exist (yet): in the longest prefix that exists, and in a dangling
+/// symbolic link right below it, which is followed the way the kernel will follow
+/// it once its destination has been created.
+fn resolve_existing_part(dname: &Path, links_left: u32) -> io::Result<PathBuf> {
+    for prefix in dname.ancestors().skip(1) {
+        match prefix.canonicalize() {
+            Ok(mut real) => {
+                let mut rest = dname.strip_prefix(prefix).unwrap().components();
+                if let Some(first) = rest.next() {
+                    if let Ok(dest) = fs::read_link(real.join(first)) {
+                        if links_left == 0 {
+                            return Err(io::Error::from_raw_os_error(libc::ELOOP));
+                        }
+                        let mut next = real.join(dest);
+                        next.push(rest.as_path());
+                        return match next.canonicalize() {
+                            Ok(path) => Ok(path),
+                            Err(e) if e.kind() == io::ErrorKind::NotFound => {
+                                resolve_existing_part(&next, links_left - 1)
+                            }
+                            Err(e) => Err(e),
+                        };
+                    }
+                    real.push(first);
+                }
+                real.push(rest.as_path());
+                return Ok(real);
+            }
+            Err(e) if e.kind() == io::ErrorKind::NotFound => continue,
+            Err(e) => return Err(e),
+        }
+    }
+    Ok(dname.to_path_buf())
 }
 
 #[cfg(test)]
